@@ -86,7 +86,7 @@ Print Assumptions C03_throw_restores.
    answer the heap already is h; at every answer the heap is h plus newer bindings on top. *)
 Theorem C03_query_restores : forall (E P : Type) (prog : P -> code (term * term) E P * E) (gho : E -> nat) n d k h c e hf itf ys r,
   nexts umkleaf ulnext ulclose prog gho n d k h (IFresh c e) = Some (hf, itf, ys, r) ->
-  iclose ulclose hf itf = h /\ (r <> RYield -> d <> 0 -> hf = h)
+  iclose ulclose hf itf = h /\ (r <> RYield -> hf = h)
   /\ Forall (fun y => exists nw, y = nw ++ h) ys.
 Proof. exact query_restores_unify. Qed.
 Print Assumptions C03_query_restores.
@@ -94,7 +94,7 @@ Print Assumptions C03_query_restores.
 (* "re-running a side-effect-free query on the same engine and the same variables gives the same
    answer sequence again" *)
 Theorem C03_rerun_same : forall (E P : Type) (prog : P -> code (term * term) E P * E) (gho : E -> nat) n d k h c e hf itf ys r,
-  d <> 0 -> r <> RYield ->
+  r <> RYield ->
   nexts umkleaf ulnext ulclose prog gho n d k h (IFresh c e) = Some (hf, itf, ys, r) ->
   nexts umkleaf ulnext ulclose prog gho n d k hf (IFresh c e) = Some (hf, itf, ys, r).
 Proof. exact rerun_same_unify. Qed.
@@ -138,7 +138,7 @@ Theorem C03_compiled_query_restores :
   m_nexts ir facts user n d k h (m_query ir facts user name args nx) = Some (hf, itf, ys, r) ->
   m_iclose hf itf = h
   /\ ithrow lclose hf itf = (h, IDone, RRaise)
-  /\ (r <> RYield -> d <> 0 -> hf = h)
+  /\ (r <> RYield -> hf = h)
   /\ Forall (fun y => exists nw, y = nw ++ h) ys.
 Proof. exact compiled_query_restores. Qed.
 Print Assumptions C03_compiled_query_restores.
